@@ -150,6 +150,7 @@ func (bpe *basePitEntry) InsertInRecord(
 	record.LatestTimestamp = time.Now()
 	record.LatestInterest = interest.NameV.Clone()
 	record.ExpirationTime = time.Now().Add(lifetime)
+	record.PitToken = append([]byte{}, incomingPitToken...)
 	return record, true, previousNonce
 }
 
